@@ -797,8 +797,44 @@ def _counts_delayed_timers(fn, var):
         from common import backslice
 
         calls, places, nodes = backslice(fn.prog, fn, ("place", var, "usize"))
-        _DELAYED_VARS[key] = any(p == "self.delayed_nack_timers" or p.startswith("self.delayed_nack_timers") for p in places)
+        res = any(p == "self.delayed_nack_timers" or p.startswith("self.delayed_nack_timers") for p in places)
+        if not res:
+            res = _counts_under_length_test(fn, var)
+        _DELAYED_VARS[key] = res
     return _DELAYED_VARS[key]
+
+
+def _counts_under_length_test(fn, var):
+    """`let mut i = 0; while i < self.delayed_nack_timers.len() && .. { i += 1 }`: every definition of `var` is the
+    constant 0 or `var + 1` made under `var < len(self.delayed_nack_timers)` - so var > 0 implies a non-empty list."""
+    ls = [l for vn, l, pj in fn.var_places if vn == var and not pj]
+    if len(ls) != 1:
+        return False
+    l = ls[0]
+    eb = ExprBuilder(fn.prog, fn, user_stop=True)
+    dom = dominators(fn)
+    guards = set()
+    for b in fn.live_blocks():
+        t = fn.blocks[b]["term"]
+        if t["k"] == "switch":
+            txt = expr_str(eb.operand(t["discr"]))
+            if re.match(r"^Lt\(%s, Vec::len\(&?self\.delayed_nack_timers\)\)$" % re.escape(var), txt):
+                guards.add(t["otherwise"])  # the edge on which the comparison is true
+    incs = 0
+    for d in fn.defs(l):
+        if d[0] != "assign":
+            return False
+        e = eb.rvalue(d[3])
+        txt = expr_str(e)
+        if txt == "const(0)":
+            continue
+        if re.match(r"^\(AddWithOverflow\(%s, const\(1\)\)\)\.0$" % re.escape(var), txt) or txt == "Add(%s, const(1))" % var:
+            if not any(g in dom.get(d[1], ()) for g in guards):
+                return False
+            incs += 1
+            continue
+        return False
+    return incs > 0
 
 
 def _w_derived(dw, fn=None):
